@@ -276,6 +276,25 @@ def ref(verb, zs, ss, inp, keyf=gkey):
     return None
 
 
+def int_norm(v):
+    try:
+        return str(int(v.decode("latin1"), 0)).encode()
+    except ValueError:
+        return v
+
+
+def int_spelling_collision(inp):
+    """two different records that differ only in how an integer is spelled (0x1 / 1): uniq -a keys its map by the JSON
+    rendering of the record, which prints both as 1"""
+    seen = {}
+    for r in inp:
+        k = tuple((a, int_norm(b)) for a, b in r)
+        if k in seen and seen[k] != r:
+            return True
+        seen.setdefault(k, r)
+    return False
+
+
 def ukey(inv, fs, r):
     """what a group of uniq / count-distinct is in the documentation: the values of the named fields; with -x the
     record's other fields (names and values)"""
@@ -500,6 +519,8 @@ def oracle(ctx, verb, zs, ss, args, inp, out):
     cls = "grouping-key-comma-collision" if fs and has_collision(fs, inp) else "other"
     if verb in (17, 18, 19) and uniq_collision(zs[0], ss[0], inp):
         cls = "grouping-key-comma-collision"
+    if verb in (12, 20, 21) and int_spelling_collision(inp):
+        cls = "uniq-a-int-spellings-merged"
     if exp is not None:
         if exp != out:
             return dict(base, expected=show(exp), **{"class": cls}, law="documented output")
@@ -636,6 +657,7 @@ def run(ctx):
     count_identities(ctx, oracle_bad)
     finding_probes(ctx, oracle_bad)
     regression_probes(ctx, oracle_bad)
+    finding_probe_uniq_a(ctx, oracle_bad)
     # ---- verdict
     if not ok:
         if oracle_bad:
@@ -782,6 +804,16 @@ def finding_probes(ctx, oracle_bad):
         if st != 0 or out != want:
             oracle_bad.append({"argv": ["mlr"] + IOFLAGS + args, "input": show(recs), "observed": show(out), "expected": show(want),
                                "law": "per group: records with different group-by values are in different groups", "class": "grouping-key-comma-collision"})
+
+
+def finding_probe_uniq_a(ctx, oracle_bad):
+    recs = [[(b"a", b"0x1"), (b"b", b"2")], [(b"a", b"1"), (b"b", b"2")]]
+    for args, want in ((["uniq", "-a"], recs), (["uniq", "-a", "-n"], [[(b"count", b"2")]])):
+        st, out, err = run_verbs(ctx, [(args, recs)])[0]
+        ctx.count(("finding-probe", args))
+        if st != 0 or out != want:
+            oracle_bad.append({"argv": ["mlr"] + IOFLAGS + args, "input": show(recs), "observed": show(out), "expected": show(want),
+                               "law": "uniq -a prints the first occurrence of every distinct record", "class": "uniq-a-int-spellings-merged"})
 
 
 def regression_probes(ctx, oracle_bad):
